@@ -1,1 +1,4 @@
 pub mod zones;
+pub mod units;
+pub mod zinc;
+pub mod hayson;
